@@ -79,6 +79,10 @@ func genC19(r *sim.Rand, tier string) *sim.Program {
 	p.SetCB("k2", r.Bytes(kl))
 	nops := r.Range(2, 14)
 	isCmac := c19Constructions[con] == "cmac"
+	nest := !isCmac && r.Chance(1, 6)
+	if nest {
+		p.SetC("nest", 1) // the object is built over a block whose Encrypt can re-enter the object (overlapping MAC calls)
+	}
 	bigMsgs := r.Chance(1, 40)
 	msgLen := func() int {
 		if bigMsgs && r.Chance(1, 2) {
@@ -92,10 +96,16 @@ func genC19(r *sim.Rand, tier string) *sim.Program {
 			k = r.PickStr("mac", "write", "write", "write", "sum", "sumapp", "reset", "fresh", "bitpair", "size", "stream")
 		} else {
 			k = r.PickStr("mac", "mac", "mac", "bitpair", "size", "fresh")
+			if nest && r.Chance(1, 2) {
+				k = "nestmac"
+			}
 		}
 		switch k {
 		case "mac":
 			p.Add("mac", r.PickInt(0, 0, 1, bs, 2*bs, 64)).WithB(r.Bytes(msgLen()))
+		case "nestmac":
+			// MAC(m1) is interrupted at its k-th block encryption by a complete MAC(m2) on the SAME object
+			p.Add("nestmac", r.PickInt(0, 1, 1, 2, 3, r.Intn(12))).WithB(r.Bytes(msgLen()), r.Bytes(msgLen()))
 		case "stream":
 			// one message delivered through the simulated pipe in chunks, then Sum
 			m := r.Bytes(msgLen())
@@ -242,6 +252,17 @@ func execC19(t *testing.T, p *sim.Program, c *sim.Ctx) {
 		c.Nontriv = true
 	}
 	c.Abs(con, ci, size == bs, pad)
+	hook := &c19Hook{}
+	if p.C("nest") == 1 && con != "cmac" {
+		inner := lib
+		lib = func(key []byte) (cipher.Block, error) {
+			b, err := inner(key)
+			if err != nil {
+				return nil, err
+			}
+			return &c19HookBlock{Block: b, h: hook}, nil
+		}
+	}
 	obj, err := c19New(con, lib, k1, k2, size, pad)
 	if err != nil {
 		c.Fail("setup", -1, "setup", "constructor: %v", err)
@@ -305,6 +326,35 @@ func execC19(t *testing.T, p *sim.Program, c *sim.Ctx) {
 			}
 			check(i, op.K, msg, got)
 			streamed = append(streamed[:0], msg...) // CMAC.MAC() is Reset+Write+Sum: the message stays absorbed
+		case "nestmac":
+			// Two MAC calls on one object that overlap in time, made deterministic: the block cipher under the object
+			// calls back into the harness at the k-th block encryption of MAC(m1), and the harness runs MAC(m2) on the same
+			// object to completion there. The tag depends only on (key, message): both must be the model's.
+			// CMAC is a running hash.Hash (single-user by design) and is not interleaved.
+			m1, m2 := op.Bytes(0), op.Bytes(1)
+			k := op.Int(0)
+			if k < 0 {
+				k = 0
+			}
+			c.Abs("nm", sim.LenClass(len(m1), bs), sim.LenClass(len(m2), bs), k)
+			if obj.h != nil {
+				continue
+			}
+			var t2 []byte
+			fired := false
+			hook.arm(k, func() {
+				fired = true
+				t2 = obj.mac.MAC(append([]byte{}, m2...))
+			})
+			t1 := obj.mac.MAC(append([]byte{}, m1...))
+			hook.disarm()
+			check(i, op.K, m1, t1)
+			if fired {
+				c.Hit("probe:overlapping-mac-calls-on-one-object")
+				if !c.Failed() {
+					check(i, op.K, m2, t2)
+				}
+			}
 		case "write":
 			if obj.h == nil {
 				continue
@@ -402,6 +452,33 @@ func execC19(t *testing.T, p *sim.Program, c *sim.Ctx) {
 			}
 		}
 	}
+}
+
+// c19Hook lets the harness run code at the k-th Encrypt call made by a MAC object (counted over all blocks of the object).
+type c19Hook struct {
+	left int
+	f    func()
+}
+
+func (h *c19Hook) arm(k int, f func()) { h.left, h.f = k, f }
+func (h *c19Hook) disarm()             { h.f = nil }
+
+type c19HookBlock struct {
+	cipher.Block
+	h *c19Hook
+}
+
+func (b *c19HookBlock) Encrypt(dst, src []byte) {
+	if b.h.f != nil {
+		if b.h.left == 0 {
+			f := b.h.f
+			b.h.f = nil
+			f()
+		} else {
+			b.h.left--
+		}
+	}
+	b.Block.Encrypt(dst, src)
 }
 
 func fitKey(k []byte, n int) []byte {
